@@ -568,13 +568,35 @@ func replay(cf *evid.CaseFile) error {
 	return err
 }
 
+// degenerate: operand-less nodes, alone and under NOT, sent to servers whose
+// index has no rows, only rows without columns, or one row.
+func degenerate(t *testing.T) {
+	var reqs []Req
+	for _, e := range []model.Expr{model.Or(), model.And(), model.Not(model.Or()), model.Not(model.And()), model.Not(model.Not(model.Or())),
+		model.And(model.Not(model.Or())), model.Or(model.Not(model.And()), model.And()), model.Not(model.Or(model.Or(), model.And()))} {
+		for _, gb := range [][]string{nil, {"a"}, {"a", "a"}} {
+			q := fix.PBQuery(e, gb, 0)
+			reqs = append(reqs, Req{Wire: marshal(&pb.QueryRequest{Queries: []*pb.Query{q}}), Kind: "empty-operand-list@depth1"})
+		}
+	}
+	for _, rows := range [][]model.Row{{}, {{}, {}, {}}, {{"a": "1"}}} {
+		for _, args := range [][]string{nil, {"-p"}} {
+			run(t, &Case{Data: gen.DataSpec{Explicit: rows}, ServerArgs: args, Reqs: reqs}, "request")
+		}
+	}
+}
+
 func TestQuick(t *testing.T) {
 	fix.Pinned(t, prop, replay)
+	degenerate(t)
 	fix.Check(t, "request", 25, func(rt *rapid.T) { run(rt, drawCase(rt, 30), "request") })
 	prefilterSearch(t, 20000)
 }
 
 func TestThorough(t *testing.T) {
+	if shard, _ := evid.Shard(); shard == 0 {
+		degenerate(t)
+	}
 	if shard, _ := evid.Shard(); shard == 0 {
 		fix.Pinned(t, prop, replay)
 	}
